@@ -256,8 +256,8 @@ func init() {
 			"Global/Local scores compared with an independent three-state DP optimum (cross-checked against brute-force enumeration of all alignments at worker start) and with an independent edit distance; " +
 			"exhaustive table checks: all 65536 Levenshtein entries, all 24x24 entries of each shipped matrix; non-trivial = pair with both sequences non-empty / each table entry",
 		Assumptions: []string{"Local is exercised only with non-positive gap scores", "table values are not tied to an external ground truth (only completeness, symmetry and zero gap-open)"},
-		MinEvents: map[string]int64{"global_optimal": 10000, "local_optimal": 3000, "table_entries_checked": 65536 + 6*576, "levenshtein_pairs": 500},
-		SelfTest:  alignSelfTest,
+		MinEvents:   map[string]int64{"global_optimal": 10000, "local_optimal": 3000, "table_entries_checked": 65536 + 6*576, "levenshtein_pairs": 500},
+		SelfTest:    alignSelfTest,
 		Units: []Unit{
 			{Name: "small", QShards: 4, TShards: 12, Run: c09Small},
 			{Name: "random", QShards: 2, TShards: 8, Run: c09Random},
@@ -273,8 +273,8 @@ func init() {
 			"scores compared with the independent three-state DP optimum; a sub-optimal score is tolerated only when it equals the independently implemented single-state recurrence of the open known finding; " +
 			"non-trivial = pair with both sequences non-empty",
 		Assumptions: []string{"open known finding single-state-recurrence (KNOWN_FINDINGS.txt): identified by call site (align.Global/Local, gap-open != 0) and mechanism (returned score equals the single-state recurrence value), not by an input list"},
-		MinEvents: map[string]int64{"global_calls": 10000, "local_calls": 3000},
-		SelfTest:  alignSelfTest,
+		MinEvents:   map[string]int64{"global_calls": 10000, "local_calls": 3000},
+		SelfTest:    alignSelfTest,
 		Units: []Unit{
 			{Name: "small", QShards: 4, TShards: 12, Run: c10Small},
 			{Name: "random", QShards: 2, TShards: 8, Run: c10Random},
